@@ -70,7 +70,7 @@ class SIR_FixedRecovery(SIR):
         super().setUp(params)
 
         # traverse the set of initially-infected nodes
-        tInfected = params[self.T_INFECTED]
+        tInfected = self._tInfected
         g = self.network()
         for n in self.compartment(self.INFECTED):
             # record that the node was initially infected
